@@ -271,6 +271,18 @@ impl Ctx {
         self.shared.lock().unwrap().violations.len()
     }
 
+    /// (evaluations, violations as JSON) for the plain-build child of C14
+    pub fn plain_summary(&self) -> (u64, Vec<Value>) {
+        let s = self.shared.lock().unwrap();
+        (
+            s.evaluations,
+            s.violations
+                .iter()
+                .map(|v| json!({"check": v.check, "case": v.case, "message": v.message}))
+                .collect(),
+        )
+    }
+
     pub fn evaluations(&self) -> u64 {
         self.shared.lock().unwrap().evaluations
     }
